@@ -1,8 +1,30 @@
 import NflowsModel.Core.Driver
-/-! Core/Ops/C02 — driver operations used by the C02 correspondence (executable model, Mathlib-free). -/
-namespace NF
+import NflowsModel.Core.Reshape
+/-! Core/Ops/C02 — driver operations `squeeze` and `permute` (exact index maps; used by C02, C01, C08 correspondences).
 
-/-- handler for the ops of this property; `none` = not one of mine -/
-def handleC02 (_r : Req) : Option Resp := none
+`squeeze`: i = [inverse, f, B, C, H, W], f = [x]  →  f = [y] or e = ValueError.
+`permute`: i = [inverse, dim, nshape, shape…, perm…], f = [x] → f = [y] or e = ValueError. -/
+namespace NF
+variable {α : Type} [Bits α]
+
+def runC02 (o : XOps α) (r : Req) : Option Resp :=
+  match r.op with
+  | "squeeze" =>
+    let x : Array α := (r.fl 0 : List α).toArray
+    let res := if r.flag 0 then squeezeInv (r.nat 1) (r.nat 2) (r.nat 3) (r.nat 4) (r.nat 5) x o.zero
+               else squeezeFwd (r.nat 1) (r.nat 2) (r.nat 3) (r.nat 4) (r.nat 5) x o.zero
+    some (match res with | .ok y => { fs := [bitsOf y.toList] } | .error e => { err := some e.name })
+  | "permute" =>
+    let x : Array α := (r.fl 0 : List α).toArray
+    let ns := r.nat 2
+    let ints := r.ints.toList.map Int.toNat
+    let shape := (ints.drop 3).take ns
+    let perm := ints.drop (3 + ns)
+    let p := if r.flag 0 then inversePerm perm else perm
+    some (match permuteDim shape (r.nat 1) p x o.zero with | .ok y => { fs := [bitsOf y.toList] } | .error e => { err := some e.name })
+  | _ => none
+
+def handleC02 (r : Req) : Option Resp :=
+  if r.prec == "f32" then runC02 float32X r else runC02 floatX r
 
 end NF
